@@ -31,7 +31,11 @@ ASSUMPTIONS = [
     "after the loop has ended handle_client logs sum(response_times) / len(response_times): ZeroDivisionError for a connection on "
     "which no request was handled; outside the property (the loop has ended), counted in the evidence notes",
     "kernel TCP / unix-socket segmentation and flow control are represented by feed_data chunking and in-memory pipes with seeded "
-    "piece sizes and virtual delays",
+    "piece sizes and virtual delays; a writer above its high-water mark by a scripted StreamWriter whose drain() blocks between `stall` and "
+    "`resume` (what was handed to write() counts as queued); close() while the writer is stalled is not scripted in memory - that is what "
+    "the real-socket runs cover (tail of a burst in the write buffer at close(), peer reading up to 5 s late)",
+    "real sockets: the peer's pause (2.5 s quick; 0.2 / 1.2 / 2.5 / 5 s thorough) stands for 'the peer picks the data up later'; an "
+    "implementation whose close() gives up only after more than 5 s is not distinguished from one that waits",
 ]
 
 
@@ -383,6 +387,7 @@ def run(ctx):
     # --- whole executions (operation sequences, write side, server loop with end reasons, both directions) ---
     _run_client_sequences(ctx, variants)
     _run_write_side(ctx, variants)
+    _run_flow_sequences(ctx, variants)
     _run_server_sequences(ctx, _srv)
     _run_exchange(ctx, _srv, variants)
     _run_real_sockets(ctx)
@@ -393,77 +398,278 @@ def run(ctx):
 # whole executions: Model/LinesExec.lean (cstep / crun, srvLoop / srvFeed / srvEof, exchange)
 # =================================================================================================
 
-def _run_real_sockets(ctx):
-    """the one thing in-memory streams cannot show: what the kernel does with data that is still unread when the sender closes.  Over a
-    real localhost TCP connection and a real unix socket the client writes a burst and closes while the peer has not read yet; the peer
-    must still read every message, then a clean end-of-stream (a connection that is reset on close loses them)."""
+def _rs_message(seed, i, n):
+    """message i of a real-socket burst: n bytes, all byte values, reproducible from the case"""
+    import random as _random
+    return _random.Random(f"C19:rs:{seed}:{i}").randbytes(n)
+
+
+async def _real_socket_burst(kind, spec):
+    """one real connection (localhost TCP / unix socket): the client made by its own connect() writes a burst and calls close(); the peer
+    starts reading only `pause` seconds after it accepted.  spec: {"messages": [hex...]} (a fixed burst) or {"fill": {"seed", "len", "extra",
+    "cap"}} (messages of `len` bytes until the tail of the burst stays in the client's user-space write buffer - the kernel buffers and the
+    peer's StreamReader are full -, then `extra` more), "pause".  -> (messages written (write() returned normally), what the peer read)"""
     import os
+    import shutil
+    import socket
     import tempfile
 
     from gallia.transports.base import TargetURI
     from gallia.transports.tcp import TCPLinesTransport
     from gallia.transports.unix import UnixLinesTransport
 
-    rng = ctx.rng
-    msgs = [bytes([rng.randrange(256) for _ in range(rng.choice([1, 2, 7, 300]))]) for _ in range(20)]
+    pause = spec["pause"]
+    got = []
+    done = asyncio.Event()
 
-    async def one(kind):
-        got = []
-        done = asyncio.Event()
-
-        async def handler(r, w):
-            await asyncio.sleep(0.15)   # a peer that is busy: everything arrives (and the sender closes) before it reads
-            try:
-                while True:
-                    line = await r.readline()
-                    if not line.endswith(b"\n"):
-                        got.append("eos" if line == b"" else "tail " + line.hex())
-                        break
-                    got.append("msg " + line.strip().decode())
-            except Exception as e:  # noqa: BLE001
-                got.append("exc:" + type(e).__name__)
-            done.set()
-            w.close()
-
-        td = tempfile.mkdtemp(prefix="verif-c19-", dir="/var/tmp")
+    async def handler(r, w):
+        await asyncio.sleep(pause)   # a peer that is busy: everything is written (and the sender closes) before it reads
         try:
-            if kind == "tcp-lines":
-                srv = await asyncio.start_server(handler, "127.0.0.1", 0)
-                port = srv.sockets[0].getsockname()[1]
-                tr = await TCPLinesTransport.connect(TargetURI(f"tcp-lines://127.0.0.1:{port}"))
+            while True:
+                line = await r.readline()
+                if not line.endswith(b"\n"):
+                    got.append("eos" if line == b"" else f"tail {len(line)} bytes")
+                    break
+                got.append("msg " + line.strip().decode())
+        except Exception as e:  # noqa: BLE001
+            got.append("exc:" + type(e).__name__)
+        done.set()
+        w.close()
+
+    sent = []
+    td = tempfile.mkdtemp(prefix="verif-c19-", dir="/var/tmp")
+    try:
+        if kind == "tcp-lines":
+            srv = await asyncio.start_server(handler, "127.0.0.1", 0)
+            if "fill" in spec:  # small kernel buffers keep the burst that fills them small (inherited by the accepted socket)
+                srv.sockets[0].setsockopt(socket.SOL_SOCKET, socket.SO_RCVBUF, 65536)
+            port = srv.sockets[0].getsockname()[1]
+            tr = await TCPLinesTransport.connect(TargetURI(f"tcp-lines://127.0.0.1:{port}"))
+        else:
+            path = os.path.join(td, "s.sock")
+            srv = await asyncio.start_unix_server(handler, path)
+            tr = await UnixLinesTransport.connect(TargetURI(f"unix-lines://{path}"))
+        try:
+            if "fill" in spec:
+                f = spec["fill"]
+                sock = tr.writer.get_extra_info("socket")
+                if sock is not None and kind == "tcp-lines":
+                    sock.setsockopt(socket.SOL_SOCKET, socket.SO_SNDBUF, 65536)
+                extra = None
+                while len(sent) < f["cap"] and (extra is None or extra > 0):
+                    m = _rs_message(f["seed"], len(sent), f["len"])
+                    await asyncio.wait_for(tr.write(m), 10 + pause)
+                    sent.append(m)
+                    if extra is not None:
+                        extra -= 1
+                    elif tr.writer.transport.get_write_buffer_size() > 0:
+                        await asyncio.sleep(0.05)  # the peer's stream reader takes what it has room for
+                        if tr.writer.transport.get_write_buffer_size() > 0:
+                            extra = f["extra"]
+                queued = tr.writer.transport.get_write_buffer_size()
             else:
-                path = os.path.join(td, "s.sock")
-                srv = await asyncio.start_unix_server(handler, path)
-                tr = await UnixLinesTransport.connect(TargetURI(f"unix-lines://{path}"))
-            for m in msgs:
-                await tr.write(m)
-            await tr.close()
+                for h in spec["messages"]:
+                    m = bytes.fromhex(h)
+                    await tr.write(m)
+                    sent.append(m)
+                queued = tr.writer.transport.get_write_buffer_size()
             try:
-                await asyncio.wait_for(done.wait(), 10)
+                await asyncio.wait_for(tr.close(), 20 + pause)
             except (TimeoutError, asyncio.TimeoutError):
-                got.append("peer-never-saw-the-end")
-            srv.close()
-        finally:
-            import shutil
-            shutil.rmtree(td, ignore_errors=True)
-        return got
-
-    for kind in ("tcp-lines", "unix-lines"):
-        loop = asyncio.new_event_loop()
+                got.append("close-never-returned")
+        except Exception as e:  # noqa: BLE001
+            got.append("client-exc:" + type(e).__name__)
+            queued = -1
         try:
-            got = loop.run_until_complete(one(kind))
-        finally:
-            loop.close()
-        want = ["msg " + m.hex() for m in msgs] + ["eos"]
+            await asyncio.wait_for(done.wait(), 20 + pause)
+        except (TimeoutError, asyncio.TimeoutError):
+            got.append("peer-never-saw-the-end")
+        srv.close()
+    finally:
+        shutil.rmtree(td, ignore_errors=True)
+    return sent, got, queued
+
+
+def _eval_real_socket_bursts(ctx, cases):
+    """cases: (kind, spec); all connections of one call run concurrently in one (real-time) loop -> [(sent, got, queued)]"""
+    async def all_():
+        return await asyncio.gather(*[_real_socket_burst(kind, spec) for kind, spec in cases])
+
+    loop = asyncio.new_event_loop()
+    try:
+        runs = loop.run_until_complete(all_())
+    finally:
+        loop.close()
+    for (kind, spec), (sent, got, queued) in zip(cases, runs):
+        want = ["msg " + m.hex() for m in sent] + ["eos"]
+        late = "fill" in spec
         ctx.ev()
-        ctx.kind("real-socket:" + kind)
-        ctx.nontrivial(("real-socket", kind))
+        ctx.kind(f"real-socket:{kind}" + (f":burst-beyond-kernel-buffers:peer-reads-after-{spec['pause']}s" if late else ""))
+        ctx.nontrivial(("real-socket", kind, late, spec["pause"]))
+        if late:
+            ctx.notes.setdefault("real-socket-late-reader", {})[f"{kind}:{spec['pause']}"] = {
+                "messages": len(sent), "bytes_in_client_write_buffer_at_close": queued}
         if got != want:
             i = next((k for k, (a, b) in enumerate(zip(got, want)) if a != b), min(len(got), len(want)))
-            ctx.disagree(f"lines-real-socket:{kind}:messages-lost-at-close", f"{kind} over a real socket: {len(msgs)} messages written, then close(); the peer (reading late) "
-                         f"got {len([g for g in got if g.startswith('msg')])} of them and then {got[i] if i < len(got) else 'nothing'} where {want[i]} was due",
-                         {"side": "real-socket", "scheme": kind, "messages": [m.hex() for m in msgs]}, impl=got[:25], model=want[:25], spec_violated=True,
-                         site="TCPTransport.connect / close")
+            n_ok = len([g for g in got if g.startswith("msg")])
+            case = {"side": "real-socket", "scheme": kind, "pause": spec["pause"], "written": len(sent),
+                    "bytes_in_client_write_buffer_at_close": queued}
+            case.update({"fill": spec["fill"]} if late else {"messages": spec["messages"]})
+            ctx.disagree(f"lines-real-socket:{kind}:messages-lost-at-close" + (":tail-still-in-write-buffer" if late else ""),
+                         f"{kind} over a real socket: {len(sent)} messages written (every write() returned normally), then close(); the peer "
+                         f"(reading after {spec['pause']} s) got {n_ok} of them and then `{_short(got[i], 60) if i < len(got) else 'nothing'}` where "
+                         f"message {i} / end-of-stream was due",
+                         case, impl={"read_by_peer": n_ok, "then": [_short(g, 60) for g in got[i: i + 2]]},
+                         model={"read_by_peer": len(sent), "then": ["eos"]}, spec_violated=True, site="TCPTransport / UnixTransport connect / close")
+    return runs
+
+
+async def _real_socket_failed_write(kind, spec):
+    """one real connection; the peer (raw asyncio streams) does not read, the client writes messages of `len` bytes with a timeout until a
+    write cannot be flushed in time (kernel buffers full, writer above its high-water mark); the peer sends M1; the client issues a
+    request - by the transport's timeout or under the caller's own deadline (`how`) - whose write half cannot finish; the peer then reads
+    everything the client wrote and sends M2; the client reads three times.  -> dict of observations"""
+    import os
+    import shutil
+    import socket
+    import tempfile
+
+    from gallia.transports.base import TargetURI
+    from gallia.transports.tcp import TCPLinesTransport
+    from gallia.transports.unix import UnixLinesTransport
+
+    accepted = asyncio.Queue()
+
+    async def on_connect(r, w):
+        await accepted.put((r, w))
+
+    m1, m2, req = _rs_message(spec["seed"], 1, spec["len"]), _rs_message(spec["seed"], 2, 9), _rs_message(spec["seed"], 3, 2)
+    obs = {"written": [], "request": None, "peer_read": [], "reads": []}
+    td = tempfile.mkdtemp(prefix="verif-c19-", dir="/var/tmp")
+    try:
+        if kind == "tcp-lines":
+            srv = await asyncio.start_server(on_connect, "127.0.0.1", 0)
+            srv.sockets[0].setsockopt(socket.SOL_SOCKET, socket.SO_RCVBUF, 65536)
+            tr = await TCPLinesTransport.connect(TargetURI(f"tcp-lines://127.0.0.1:{srv.sockets[0].getsockname()[1]}"))
+            tr.writer.get_extra_info("socket").setsockopt(socket.SOL_SOCKET, socket.SO_SNDBUF, 65536)
+        else:
+            path = os.path.join(td, "s.sock")
+            srv = await asyncio.start_unix_server(on_connect, path)
+            tr = await UnixLinesTransport.connect(TargetURI(f"unix-lines://{path}"))
+        pr, pw = await asyncio.wait_for(accepted.get(), 5)
+        try:
+            filler = _rs_message(spec["seed"], 0, spec["len"])
+            stalled = False
+            for _ in range(spec["cap"]):
+                obs["written"].append(filler)
+                try:
+                    await tr.write(filler, timeout=0.3)
+                except (TimeoutError, asyncio.TimeoutError):
+                    stalled = True
+                    break
+            obs["stalled"] = stalled
+            pw.write(m1.hex().encode() + b"\n")
+            await pw.drain()
+            await asyncio.sleep(0.1)
+            obs["written"].append(req)
+            try:
+                if spec["how"] == "transport-timeout":
+                    d = await tr.request(req, timeout=0.5)
+                else:
+                    d = await asyncio.wait_for(tr.request(req, timeout=None), 0.5)
+                obs["request"] = _res(d)
+            except (TimeoutError, asyncio.TimeoutError):
+                obs["request"] = "write-timeout" if stalled else "pending"
+            except Exception as e:  # noqa: BLE001
+                obs["request"] = "exc:" + type(e).__name__
+            # the peer catches up: everything the client wrote (also the lines of the writes that timed out: they are queued), in order
+            for _ in range(len(obs["written"])):
+                try:
+                    line = await asyncio.wait_for(pr.readline(), 5)
+                except (TimeoutError, asyncio.TimeoutError):
+                    break
+                if not line.endswith(b"\n"):
+                    break
+                obs["peer_read"].append(line.strip().decode())
+            pw.write(m2.hex().encode() + b"\n")
+            await pw.drain()
+            for _ in range(3):
+                try:
+                    obs["reads"].append(_res(await tr.read(timeout=1.0)))
+                except (TimeoutError, asyncio.TimeoutError):
+                    obs["reads"].append("pending")
+                except Exception as e:  # noqa: BLE001
+                    obs["reads"].append("exc:" + type(e).__name__)
+            obs["mutex_locked"] = tr.mutex.locked()
+            pw.close()
+            await asyncio.wait_for(tr.close(), 10)
+        except Exception as e:  # noqa: BLE001
+            obs["harness_exc"] = f"{type(e).__name__}:{e}"
+        srv.close()
+    finally:
+        shutil.rmtree(td, ignore_errors=True)
+    obs["want_reads"] = ["msg " + m1.hex(), "msg " + m2.hex(), "pending"]
+    return obs
+
+
+def _eval_real_socket_failed_writes(ctx, cases):
+    async def all_():
+        return await asyncio.gather(*[_real_socket_failed_write(kind, spec) for kind, spec in cases])
+
+    loop = asyncio.new_event_loop()
+    try:
+        runs = loop.run_until_complete(all_())
+    finally:
+        loop.close()
+    for (kind, spec), o in zip(cases, runs):
+        ctx.ev()
+        ctx.kind(f"real-socket:{kind}:request-write-half-fails:{spec['how']}")
+        ctx.nontrivial(("real-socket-failed-write", kind, spec["how"]))
+        ops = [f"write x{len(o['written']) - 1} ({spec['len']} bytes each, timeout 0.3) until one times out", "peer sends M1",
+               f"request ({spec['how']} 0.5)", "peer reads everything", "peer sends M2", "read 1.0", "read 1.0", "read 1.0"]
+        case = {"side": "real-socket-failed-write", "scheme": kind, "spec": spec, "ops": ops}
+        want_peer = [m.hex() for m in o["written"]]
+        if "harness_exc" in o or not o.get("stalled"):
+            ctx.notes[f"real-socket-failed-write:{kind}:{spec['how']}"] = "precondition not reached: " + str(o.get("harness_exc", "no write ever timed out"))
+            continue
+        if o["request"] != "write-timeout":
+            ctx.disagree(f"lines-real-socket:{kind}:request-on-stalled-writer-returned:{o['request'].split()[0]}",
+                         f"{kind} over a real socket: a request whose line cannot be flushed (peer not reading) gave {_short(o['request'], 60)}",
+                         case, impl=_short(o["request"], 80), model="write-timeout", spec_violated=False, site="BaseTransport.request_unsafe")
+        if o["peer_read"] != want_peer:
+            ctx.disagree(f"lines-real-socket:{kind}:peer-did-not-get-what-was-written", f"{kind} over a real socket: the client handed {len(want_peer)} "
+                         f"messages to write() (the last ones timed out in drain() and stay queued), the peer read {len(o['peer_read'])}",
+                         case, impl=len(o["peer_read"]), model=len(want_peer), spec_violated=True, site="LinesTransportMixin.write")
+        if o["reads"] != o["want_reads"]:
+            i = next(k for k in range(3) if o["reads"][k: k + 1] != o["want_reads"][k: k + 1])
+            ctx.disagree(f"lines-real-socket:{kind}:after-failed-write-half:{o['want_reads'][i].split()[0]}-vs-{(o['reads'][i: i + 1] or ['?'])[0].split()[0]}",
+                         f"{kind} over a real socket: after a request whose write half failed ({spec['how']}) the peer's messages [M1, M2] were read as "
+                         f"{[_short(x, 30) for x in o['reads']]} (first difference at read {i})",
+                         case, impl=[_short(x, 60) for x in o["reads"]], model=[_short(x, 60) for x in o["want_reads"]], spec_violated=True,
+                         site="BaseTransport.request / request_unsafe")
+        elif o.get("mutex_locked"):
+            ctx.disagree(f"lines-real-socket:{kind}:mutex-left-locked", "transport mutex still held after the failed request", case, impl="locked",
+                         model="free", spec_violated=True, site="BaseTransport.request")
+    return runs
+
+
+def _run_real_sockets(ctx):
+    """what in-memory streams cannot show: what the kernel and the stream writer do with data that is still unread / unsent when the sender
+    closes.  Over a real localhost TCP connection and a real unix socket the client writes a burst and closes while the peer has not read
+    yet; the peer must still read every message, then a clean end-of-stream (a connection that is reset or aborted on close loses them).
+    (a) a small burst (fits the kernel buffers), peer reads after 0.15 s; (b) a burst of 4095-byte messages that goes beyond the kernel
+    buffers and the peer's StreamReader, so that its tail is still in the client's user-space write buffer at close(), and a peer that starts
+    reading only after a pause longer than any plausible bound an implementation may put on its shutdown."""
+    rng = ctx.rng
+    msgs = [bytes([rng.randrange(256) for _ in range(rng.choice([1, 2, 7, 300]))]) for _ in range(20)]
+    cases = [(kind, {"messages": [m.hex() for m in msgs], "pause": 0.15}) for kind in ("tcp-lines", "unix-lines")]
+    for pause in ctx.pick([2.5], [0.2, 1.2, 2.5, 5.0]):
+        for kind in ("tcp-lines", "unix-lines"):
+            cases.append((kind, {"fill": {"seed": f"{ctx.seed}:{kind}:{pause}", "len": 4095, "extra": 4, "cap": 4000}, "pause": pause}))
+    _eval_real_socket_bursts(ctx, cases)
+    # (c) an exchange whose write half fails under real flow control while the peer's messages are available / arrive later
+    _eval_real_socket_failed_writes(ctx, [(kind, {"seed": f"{ctx.seed}:fw:{kind}:{how}", "len": 4095, "cap": 4000, "how": how})
+                                          for kind in ("tcp-lines", "unix-lines") for how in ("transport-timeout", "caller-deadline")])
 
 
 class _CountWriter(MemWriter):
@@ -476,6 +682,25 @@ class _CountWriter(MemWriter):
     def close(self):
         self.close_calls += 1
         super().close()
+
+    # flow control: while `stalled`, drain() does not return (the peer does not read, the writer is above its high-water mark);
+    # what was handed to write() stays queued and counts as written (it goes out when the peer reads again)
+    stalled = False
+    _resumed = None
+
+    def stall(self):
+        self.stalled = True
+        self._resumed = asyncio.Event()
+
+    def resume(self):
+        self.stalled = False
+        if self._resumed is not None:
+            self._resumed.set()
+
+    async def drain(self):
+        while self.stalled:
+            await self._resumed.wait()
+        await super().drain()
 
 
 def _res(d):
@@ -528,10 +753,19 @@ async def _client_seq(cls, scheme, ops):
             elif op[0] == "eof":
                 reader.feed_eof()
                 res.append("ok")
+            elif op[0] == "stall":
+                writer.stall()
+                res.append("ok")
+            elif op[0] == "resume":
+                writer.resume()
+                res.append("ok")
             elif op[0] == "write":
                 try:
                     n = await tr.write(op[1], timeout=1.0)
                     res.append(f"wrote {n} {hx(writer.data[before:])}")
+                except (TimeoutError, asyncio.TimeoutError) as e:
+                    # under flow control the write times out in drain(); the line is queued
+                    res.append(f"{'write-timeout' if writer.stalled else 'write-refused:TimeoutError'} {hx(writer.data[before:])}")
                 except Exception as e:  # noqa: BLE001 - a message that cannot be written is a delivery failure
                     res.append(f"write-refused:{type(e).__name__} {hx(writer.data[before:])}")
             elif op[0] == "request":
@@ -544,7 +778,8 @@ async def _client_seq(cls, scheme, ops):
                         d = await tr.request(op[1], timeout=op[2])
                     r = _res(d)
                 except (TimeoutError, asyncio.TimeoutError):
-                    r = "pending"
+                    # on a stalled writer the request cannot get past its write half (drain() blocks): it fails there
+                    r = "write-timeout" if writer.stalled else "pending"
                 except Exception as e:  # noqa: BLE001
                     r = "bad" if len(writer.data) > before else f"write-refused:{type(e).__name__}"
                 res.append(f"{hx(writer.data[before:])} {r}")
@@ -575,8 +810,8 @@ def _seq_lines(ops):
             lines.append(f"{op[0]} {hx(op[1])}")
         elif op[0] == "eof":
             lines.append("eof")
-        elif op[0] == "close":
-            lines.append("close")
+        elif op[0] in ("close", "stall", "resume"):
+            lines.append(op[0])
         else:
             lines.append("read")
     return lines
@@ -599,6 +834,15 @@ def _seq_key(ops, i, impl, model):
         ir, mr = (iw[-2] if iw[-2:-1] == ["msg"] else iw[-1]), (mw[-2] if mw[-2:-1] == ["msg"] else mw[-1])
         if op == "request" and iw[0] != mw[0]:
             return "lines-client-seq:request-wrote-other-bytes"
+        if mr == "write-timeout":
+            return "lines-client-seq:request-on-stalled-writer-returned:" + ir
+        st, failed_before = False, False
+        for o in ops[:i]:
+            st = True if o[0] == "stall" else False if o[0] == "resume" else st
+            failed_before = failed_before or (st and o[0] in ("write", "request"))
+        if failed_before:
+            # a read after an exchange whose write half failed under flow control
+            return f"lines-client-seq:after-failed-write-half:{mr}-vs-{ir}"
         if eof_before and mr == "eos" and ir == "msg":
             return "lines-client:unterminated-tail-at-eof-returned-as-message"
         if mr == "pending":
@@ -744,6 +988,54 @@ def _run_client_sequences(ctx, variants):
             scripts.append(("seeded-seq", cls, scheme, ops))
     impl, _models = _run_scripts(ctx, scripts, "client-seq", "LinesTransportMixin.read/write, BaseTransport.request/close")
     ctx.sample({"scheme": scripts[40][2], "ops": _ops_json(scripts[40][3]), "impl": impl[40]})
+
+
+def _run_flow_sequences(ctx, variants):
+    """the write side under flow control (Model/LinesExec fstep / frun): the writer is a scripted StreamWriter whose drain() blocks while
+    `stalled` (peer not reading, writer above its high-water mark).  A write() / request() issued then fails in its WRITE half (TimeoutError
+    from the transport's timeout, or the caller's own deadline cancelling it) on an otherwise healthy stream, while messages from the peer
+    are already buffered, arrive during the stall or arrive later; afterwards the reads must return exactly the peer's messages, in order."""
+    syms = [("feed", b"3e00\n"), ("feed", b"1001\n7f\n"), ("feed", b"22"), ("read", 0.25), ("write", b"\x3e\x00"),
+            ("request", b"\x10\x01", 0.25), ("request", b"\x11", 0.25), ("stall",), ("resume",)]
+    L = ctx.pick(4, 5)
+    frontier, seqs = [[]], []
+    for _ in range(L):
+        nxt = [s + [sym] for s in frontier for sym in syms]
+        seqs += nxt
+        frontier = nxt
+    scripts = []
+    for k, s in enumerate(seqs):
+        if not any(o[0] == "stall" for o in s):
+            continue  # covered by _run_client_sequences
+        cls, scheme = variants[k % 2]
+        scripts.append(("flow-exhaustive", cls, scheme, s + [("resume",), ("feed", b"f190\n"), ("read", 0.25), ("read", 0.25), ("read", 0.25), ("read", 0.25)]))
+    ctx.exhaustive_parts.append(f"write side under flow control: every sequence of length <= {L} over feed x3 / read / write / request (transport timeout) / "
+                                f"request (caller's deadline) / stall / resume that stalls at least once, each followed by resume, a further "
+                                f"message and 4 reads: {len(scripts)} scripts")
+    rng = ctx.rng
+    for _ in range(ctx.pick(80, 800)):
+        ms = _msgs(rng, rng.randint(1, 6), ctx.pick(200, 4095))
+        stream = b"".join(m.hex().encode() + b"\n" for m in ms)
+        ops, stalled = [], False
+        for c in _splits(rng, stream, "multi"):
+            ops.append(("feed", c))
+            for _ in range(rng.choice([0, 1, 1, 2, 3])):
+                k = rng.random()
+                if k < 0.3:
+                    ops.append(("read", rng.choice([0.1, 1.0])))
+                elif k < 0.4:
+                    ops.append(("write", _msgs(rng, 1, 40)[0]))
+                elif k < 0.7:
+                    ops.append(("request", _msgs(rng, 1, 40)[0], rng.choice([0.05, 0.2, 2.0])))
+                else:
+                    stalled = not stalled
+                    ops.append(("stall",) if stalled else ("resume",))
+        if stalled:
+            ops.append(("resume",))
+        ops += [("read", 0.2)] * (len(ms) + 1)
+        for cls, scheme in variants:
+            scripts.append(("flow-seeded", cls, scheme, ops))
+    _run_scripts(ctx, scripts, "client-flow", "BaseTransport.request / request_unsafe, LinesTransportMixin.write/read")
 
 
 def _run_write_side(ctx, variants):
@@ -1295,10 +1587,15 @@ _CLAUSES = [
     (("lines-client:unterminated-tail-at-eof", "lines-client:eos-vs", "lines-client-seq:eos-vs", "lines-client:msg-vs-eos", "lines-client-seq:msg-vs-eos"),
      "end-of-stream is distinguishable from a message (an unterminated tail at EOF is not a message; a complete line is not end-of-stream)"),
     (("lines-client:blocked-read-returned", "lines-client-seq:blocked-read-returned", "lines-client-seq:wrong-message:after-earlier-read",
-      "lines-client:msg-vs-pending", "lines-client-seq:msg-vs-pending", "lines-client-seq:mutex-left-locked", "lines-exchange:mutex-left-locked"),
-     "a read that times out consumes nothing, so the next read returns the complete next message"),
+      "lines-client:msg-vs-pending", "lines-client-seq:msg-vs-pending", "lines-client-seq:mutex-left-locked", "lines-exchange:mutex-left-locked",
+      "lines-client-seq:after-failed-write-half", "lines-client-seq:request-on-stalled-writer-returned"),
+     "a read (an exchange) that times out consumes nothing, so the next read returns the complete next message; the peer's messages are "
+     "delivered in order, one per read"),
     (("lines-client:write-bytes-differ", "lines-client-seq:write", "lines-client-seq:request-wrote-other-bytes", "lines-exchange:request-bytes-differ"),
      "any sequence of messages of any content and length (1..4095 bytes) is delivered to the peer as exactly that sequence of byte strings (write emits hex + newline)"),
+    (("lines-real-socket",),
+     "any sequence of messages is delivered to the peer as exactly that sequence of byte strings (every message for which write() returned reaches "
+     "the peer, also when the sender closes before the peer has read), and end-of-stream is distinguishable from a message"),
     (("lines-server", "lines-exchange"),
      "in the virtual ECU's server loop every message is delivered intact, in order, one per read, regardless of segmentation / coalescing: one reply "
      "line per answered request, none for an unanswered one, nothing for an unterminated tail"),
@@ -1428,6 +1725,22 @@ def replay(ctx, payload):
         print(f"impl : client reads {_short(r['got'], 500)}; server loop {r.get('server_end')}")
         print(f"model: handed over = the requests sent, in order; client reads = the replies handle_request gave: "
               f"{['msg ' + b.hex() for _a, b in r['log'] if isinstance(b, bytes) and b]}")
+    elif side == "real-socket-failed-write":
+        print(f"case    : {c['scheme']} client over a real socket, peer not reading: " + "; ".join(c["ops"]))
+        o, = _eval_real_socket_failed_writes(ctx, [(c["scheme"], c["spec"])])
+        print(f"impl : request -> {_short(o['request'], 60)}; peer read {len(o['peer_read'])} of {len(o['written'])} written; client reads {[_short(x, 40) for x in o['reads']]}")
+        print(f"model: request -> write-timeout; peer reads all {len(o['written'])}; client reads {[_short(x, 40) for x in o['want_reads']]}")
+    elif side == "real-socket":
+        spec = {"pause": c.get("pause", 0.15)}
+        spec.update({"fill": c["fill"]} if "fill" in c else {"messages": c["messages"]})
+        print(f"case    : {c['scheme']} client over a real socket writes " + (f"messages of {c['fill']['len']} bytes until the tail of the burst stays in its "
+              f"user-space write buffer (+{c['fill']['extra']})" if "fill" in c else f"{len(c['messages'])} messages") +
+              f", then close(); the peer starts reading {spec['pause']} s after accepting")
+        (sent, got, queued), = _eval_real_socket_bursts(ctx, [(c["scheme"], spec)])
+        n_ok = len([g for g in got if g.startswith("msg")])
+        print(f"impl : {len(sent)} messages written ({queued} bytes still in the client's write buffer at close()); the peer read {n_ok} messages, "
+              f"then {[_short(g, 60) for g in got[n_ok: n_ok + 2]]}")
+        print(f"model: the peer reads {len(sent)} messages, then ['eos']")
     else:
         import json
         print(json.dumps(finding, indent=1)[:4000])
@@ -1437,7 +1750,7 @@ def replay(ctx, payload):
 
 
 MANIFEST = {
-    "level_text": ("Lean 4 theorems (34, kernel-checked, standard axioms only) over (a) the line-framing oracle (hex text + newline): content "
+    "level_text": ("Lean 4 theorems (37, kernel-checked, standard axioms only) over (a) the line-framing oracle (hex text + newline): content "
                    "round trip for all byte strings, segmentation independence for every chunking, one message per read, a blocked "
                    "read consumes nothing at every prefix of a line, end-of-stream never yields a message; (b) the CLIENT as a whole "
                    "execution (Model/LinesExec: cstep / crun over feed / eof / read / write / request / close): client_trace_spec - for "
@@ -1446,7 +1759,9 @@ MANIFEST = {
                    "(read_pending_iff, read_eos_iff), in order and each once (client_reads_in_order, client_drained, "
                    "client_delivers_messages), a timed-out read anywhere in any execution changes nothing "
                    "(timed_out_read_consumes_nothing); write emits exactly hex + newline for every length (write_emits_exactly, "
-                   "enc_length), request = write; read; (c) the SERVER loop handle_client around a handler that answers / stays silent / "
+                   "enc_length), request = write; read; the write side under flow control (fstep / frun: the writer stalls and resumes "
+                   "anywhere): failed_write_half_consumes_nothing - a write / request that fails in its write half queues its line and "
+                   "consumes nothing, all reads return what they return without flow control (failed_request_then_read); (c) the SERVER loop handle_client around a handler that answers / stays silent / "
                    "raises: one reply line per answered request, none for an unanswered one, in order, for any decodable spelling "
                    "(server_replies_in_order), what ends the loop and that nothing after it is served (server_loop_ends, "
                    "server_empty_line_ends, server_dead_after_end), segmentation independence (server_any_segmentation); (d) both "
@@ -1461,7 +1776,12 @@ MANIFEST = {
                    "every position; sequences with write / request / close; messages of 1, 2, 4094, 4095, 4096, 20000 bytes and every "
                    "first byte value; the server loop chunk by chunk with its end reason and unread bytes; real client <-> real server "
                    "loop over in-memory pipes with seeded segmentation and delays in both directions, pipelined and lock-step, against "
-                   "the model's exchange and against a real RandomUDSServer's recorded replies."),
+                   "the model's exchange and against a real RandomUDSServer's recorded replies; operation sequences over a scripted "
+                   "StreamWriter whose drain() blocks (write half of an exchange fails by the transport's timeout or the caller's deadline "
+                   "while messages from the peer are buffered / arrive later); over real localhost TCP and unix sockets: a burst, then "
+                   "close(), with a peer that reads late - a small burst, and a burst of 4095-byte messages beyond the kernel buffers whose "
+                   "tail is still in the client's write buffer at close() with a peer that starts reading after 2.5 s (0.2 .. 5 s thorough); "
+                   "an exchange whose write half times out under real flow control, then reads."),
     "level_note": ("Trusted: Lean kernel (axioms propext, Quot.sound, Classical.choice), asyncio.StreamReader.readline / wait_for "
                    "contract, binascii, the AST translators, the harness; the reader is modelled without its 64 KiB line limit "
                    "(obligation: no limit is passed, the default covers the property's range); kernel segmentation is represented by "
